@@ -263,11 +263,15 @@ class World:
     def _frame_check(self, temps, temp_snaps, exempt_ids, call_desc, argvals, outcome,
                      exempt_arrays=(), unjudged_role=None):
         unjudged = [v for r, v in argvals if r == unjudged_role] if unjudged_role else []
+        unjudged_ids = set()
+        for v in unjudged:      # and whatever holds a reference to that value or to its parts
+            unjudged_ids |= values.reach_ids(v)
         for idx, h in enumerate(self.heap):
             new = values.snapshot(h.value)
             if new == h.snap:
                 continue
-            if any(h.value is v for v in unjudged):
+            if any(h.value is v for v in unjudged) or \
+                    (unjudged_ids and (values.reach_ids(h.value) & unjudged_ids)):
                 h.snap = new
                 h.kind = values.classify(h.value)
                 h.n = _length(h.value)
